@@ -11,7 +11,8 @@ use std::cmp::Ordering;
 use std::collections::HashMap;
 
 const SIMPLE_ENCODE_SET: &AsciiSet = CONTROLS;
-const URL_ENCODE_SET: &AsciiSet = &CONTROLS.add(b' ').add(b'"').add(b'#').add(b'<').add(b'>');
+// '`' is not accepted by http::uri::PathAndQuery: encoded like the characters above, on the rule side and on the request side
+const URL_ENCODE_SET: &AsciiSet = &CONTROLS.add(b' ').add(b'"').add(b'#').add(b'<').add(b'>').add(b'`');
 const QUERY_ENCODE_SET: &AsciiSet = &CONTROLS.add(b' ').add(b'"').add(b'#').add(b'<').add(b'>').add(b'+');
 
 #[derive(Serialize, Deserialize, Debug, Clone)]
